@@ -102,8 +102,10 @@ type dbWrap struct {
 
 var _ db.Client = (*dbWrap)(nil)
 
-func (d *dbWrap) Init(ctx context.Context, g imap.UIDValidityGenerator) error { return d.in.Init(ctx, g) }
-func (d *dbWrap) Close() error                                                 { return d.in.Close() }
+func (d *dbWrap) Init(ctx context.Context, g imap.UIDValidityGenerator) error {
+	return d.in.Init(ctx, g)
+}
+func (d *dbWrap) Close() error { return d.in.Close() }
 
 // Read is not a step boundary: a read outside a write transaction cannot change what is on disk.
 func (d *dbWrap) Read(ctx context.Context, op func(context.Context, db.ReadOnly) error) error {
